@@ -692,7 +692,51 @@ def dynamic_seed_facts(cls, slots, static_site):
     seeded_slots = {s for s, _ in inj_slots if all((s, pn) in seeded for pn, _ in _probe_transform())}
     not_applied = {s for s, _ in inj_slots if s not in applied}
     return {"seedPlusIdx": plus_idx, "applied": sorted(applied), "seeded": sorted(seeded_slots | not_applied), "fixed_slots": fixed_slots,
-            "fixed_seeded": sorted(fixed_seeded), "fixed_applied": sorted(fixed_applied)}
+            "fixed_seeded": sorted(fixed_seeded), "fixed_applied": sorted(fixed_applied), "anyCreated": any_created}
+
+
+def _accepts_seed(cls):
+    """some constructor along the MRO has a parameter called `seed`"""
+    import inspect
+    for c in cls.__mro__:
+        init = vars(c).get("__init__")
+        if init is None:
+            continue
+        try:
+            if "seed" in inspect.signature(init).parameters:
+                return True
+        except (TypeError, ValueError):
+            continue
+    return False
+
+
+def dynamic_entropy_fallback(cls):
+    """built WITHOUT a seed: does a per-sample request create a generator from OS entropy (default_rng() / default_rng(None))?
+    True / False as observed, None when the class cannot be built or no accessor runs"""
+    import numpy as np
+    from unittest import mock
+    inst, kind = _construct_layer(cls, None)
+    if inst is None:
+        return None
+    accessors = [n for n in dir(cls) if n.startswith("getitem_") and callable(getattr(cls, n, None))
+                 and any(n in vars(c) for c in cls.__mro__ if c.__module__.startswith("kappadata"))]
+    created = []
+    orig = np.random.default_rng
+
+    def rec(seed=None, *a, **kw):
+        created.append(seed)
+        return orig(seed, *a, **kw)
+    ran = False
+    for acc in accessors:
+        try:
+            with mock.patch.object(np.random, "default_rng", rec):
+                getattr(inst, acc)(1)
+            ran = True
+        except Exception:
+            continue
+    if not ran:
+        return None
+    return any(sd is None for sd in created)
 
 
 def _sub_cells(t):
@@ -839,6 +883,18 @@ def build():
         try:
             slots = slots_of(cls)
             site = seed_site(cls, slots)
+            if site is None and _accepts_seed(cls) and layer_kind(cls) != "root":
+                # no `default_rng(...)` found by reading the per-sample methods (it may live in a helper function, a property, a
+                # base class outside the call graph ...): a class that takes a seed is probed -- if a request creates generators,
+                # it is a seeded wrapper and everything about it is taken from the observation
+                dyn0 = dynamic_seed_facts(cls, slots, None)
+                if dyn0 is not None and dyn0.get("anyCreated"):
+                    site = {"method": "(observed)", "seedPlusIdx": bool(dyn0["seedPlusIdx"]), "seed_exprs": ["(observed)"], "fallback_exprs": [],
+                            "seededSlots": [], "attemptedSlots": [], "appliedSlots": [], "unseededFallback": []}
+            if site is not None:
+                ent = dynamic_entropy_fallback(cls)
+                if ent is not None:
+                    site["fallback_exprs"] = ["<entropy>"] if ent else []
             wi = worker_init_info(cls, slots)
             real_slots = sorted(s for s, k in slots.items() if k["kind"] != "alias" or True)
             # alias slots stand for their members; members need no separate init when the alias list is initialised
